@@ -162,11 +162,13 @@ def strip(e):
 def run_steps(args):
     """worker: replay a list of (kind, message/bytes) on a fresh handler.
     step = ("clean", m) | ("raw", hex) | ("trunc", m, n) | ("flip", m, [bit positions])"""
-    seed, steps = args
+    seed, steps = args[0], args[1]
+    sn0 = args[2] if len(args) > 2 else 0
     import random
     core.setup_repo_path()
     rng = random.Random(seed)
     sut = Sut(rng)
+    sut.h.sn = sn0          # own sequence counter: a state reached after sn0 answers (public attribute, see DESIGN C17)
     ev = []
     for st in steps:
         if st[0] == "clean":
@@ -188,7 +190,7 @@ def run_steps(args):
                 if b < len(data) * 8:
                     data[b // 8] ^= 0x80 >> (b % 8)
             ev.append(strip(sut.recv(bytes(data), dict(GARBAGE))))
-    return {"init": {}, "ev": ev}
+    return {"init": {"sn0": sn0}, "ev": ev}
 
 
 def run_loop(args):
@@ -222,7 +224,7 @@ def run_loop(args):
                 q[3 - who].append((raw, m2))
             ev.append(strip(e))
             n += 1
-    return {"init": {}, "ev": ev, "left": len(q[1]) + len(q[2])}
+    return {"init": {"sn0": 0}, "ev": ev, "left": len(q[1]) + len(q[2])}
 
 
 CFG = """SPECIFICATION Spec
@@ -354,11 +356,14 @@ def run(ctx):
     judge(ctx, loops, ctx.validate_traces("Trace_HSTRP", "Trace_HSTRP.cfg", loops), "closed loop of two real handlers")
     # ---- random histories
     n, ln = (300, 80) if ctx.quick else (5000, 200)
-    jobs = [(ctx.seed * 17 + i, random_steps(ctx.rng, ctx.rng.randrange(5, ln))) for i in range(n)]
+    # one history in four starts with the own sequence counter a few answers before its 16-bit wrap-around
+    jobs = [(ctx.seed * 17 + i, random_steps(ctx.rng, ctx.rng.randrange(5, ln)),
+             0 if i % 4 else ctx.rng.choice([65534, 65533, 65532, 65530, 65500, 32767, 255]))
+            for i in range(n)]
     with Pool(core.NCPU) as pool:
         hist = pool.map(run_steps, jobs, chunksize=8)
     for t, j in zip(hist, jobs):
-        t["seed"], t["steps"] = j
+        t["seed"], t["steps"], t["sn0"] = j
         for e in t["ev"]:
             ctx.count(core.digest([e["m"], e["out"]["sent"], e["out"]["connected"]]))
     for part in core.chunks(hist, 500):
@@ -370,7 +375,7 @@ def replay(ctx, rec):
     if r.get("loop"):
         t = run_loop((r["seed"], [tuple(x) for x in r["loop"][0]], r["loop"][1]))
     else:
-        t = run_steps((r["seed"], [tuple(s) for s in r["steps"]]))
+        t = run_steps((r["seed"], [tuple(s) for s in r["steps"]], r.get("sn0", 0)))
     rej = ctx.validate_traces("Trace_HSTRP", "Trace_HSTRP.cfg", [t])
     if rej:
         print(f"VIOLATION property=C17 replay=(given) why={rej[0][2]} step={rej[0][1]}")
